@@ -167,6 +167,7 @@ type Options struct {
 	NoServices   bool
 	StructConsts bool // constants (and defaults) of struct type written as map literals
 	RecDefaults  bool // recursive structures whose back-pointer has a struct-constant default (open finding F6)
+	ExtraDirs    []string // further directory names to place files in
 	Unhashable   bool // map keys and set elements that are lists, sets, maps or structs (generated as slices of pairs / slices)
 	Annotations  bool // go.tag / go.nolog / go.redact / go.label / go.type annotations on struct fields
 	Recursive    bool // recursive types: a struct reaching itself through typedef chains / containers / other structs
@@ -203,7 +204,11 @@ func Gen(o Options) *Program {
 			}
 			f.Base = goBases[1+(p.goRot+i-1)%(len(goBases)-1)]
 		}
-		f.Dir = dirs[ch("prog.dir", len(dirs))]
+		ds := dirs
+		if len(o.ExtraDirs) > 0 {
+			ds = append(append([]string{}, dirs...), o.ExtraDirs...)
+		}
+		f.Dir = ds[ch("prog.dir", len(ds))]
 		p.Files = append(p.Files, f)
 	}
 	// include DAG: every file j>0 is included by one earlier file; extra edges by choice
